@@ -35,8 +35,10 @@ pub open spec fn gpu_is_reply_for(h: VhostUserGpuMsgHeader, req: VhostUserGpuMsg
     gpu_code_ok(h.request) && h.request == req.request && h.flags & 4 != 0 && req.flags & 4 == 0
 }
 impl VhostUserGpuMsgHeader {
+    // proved-by: c01_gpu_hdr_* (kani, gpu_message.rs)
     #[verifier::external_body]
     pub fn new(request: GpuBackendReq, flags: u32, size: u32) -> (r: Self) ensures r.request == request.code(), r.flags == flags, r.size == size { unimplemented!() }
+    // proved-by: c06_gpu_is_reply_for (kani, gpu_message.rs)
     #[verifier::external_body]
     pub fn is_reply_for(&self, req: &VhostUserGpuMsgHeader) -> (r: bool) ensures r == gpu_is_reply_for(*self, *req) { unimplemented!() }
 }
@@ -48,18 +50,22 @@ pub struct Endpoint { pub log: Ghost<Seq<Ev>>, pub io_failed: Ghost<bool> }
 pub open spec fn opt_rawfds(v: Option<&[RawFd]>) -> Seq<int> { match v { Some(x) => x@.map(|i: int, f: RawFd| f as int), None => Seq::<int>::empty() } }
 pub open spec fn rx_hdr(x: RxFrame) -> VhostUserGpuMsgHeader { VhostUserGpuMsgHeader { request: x.request, flags: x.flags, size: x.size } }
 impl Endpoint {
+    // proved-by: c08_send_header_frame (kani) + unit chunk + assumed: A-OS
     #[verifier::external_body]
     pub fn send_header(&mut self, hdr: &VhostUserGpuMsgHeader, fds: Option<&[RawFd]>) -> (r: core::result::Result<(), Error>)
         ensures r is Ok ==> final(self).log@ == old(self).log@.push(Ev::Tx(Frame { request: hdr.request, flags: hdr.flags, size: hdr.size, body: Seq::<u8>::empty(), payload: Seq::<u8>::empty(), fds: opt_rawfds(fds) })) && final(self).io_failed@ == old(self).io_failed@,
             r is Err ==> final(self).log@ == old(self).log@ && final(self).io_failed@ { unimplemented!() }
+    // proved-by: c08_send_message_frame (kani) + unit chunk + assumed: A-OS
     #[verifier::external_body]
     pub fn send_message<T: ByteValued>(&mut self, hdr: &VhostUserGpuMsgHeader, body: &T, fds: Option<&[RawFd]>) -> (r: core::result::Result<(), Error>)
         ensures r is Ok ==> final(self).log@ == old(self).log@.push(Ev::Tx(Frame { request: hdr.request, flags: hdr.flags, size: hdr.size, body: body.bytes(), payload: Seq::<u8>::empty(), fds: opt_rawfds(fds) })) && final(self).io_failed@ == old(self).io_failed@,
             r is Err ==> final(self).log@ == old(self).log@ && final(self).io_failed@ { unimplemented!() }
+    // proved-by: c08_send_message_with_payload_frame (kani) + unit chunk + assumed: A-OS
     #[verifier::external_body]
     pub fn send_message_with_payload<T: ByteValued>(&mut self, hdr: &VhostUserGpuMsgHeader, body: &T, payload: &[u8], fds: Option<&[RawFd]>) -> (r: core::result::Result<(), Error>)
         ensures r is Ok ==> final(self).log@ == old(self).log@.push(Ev::Tx(Frame { request: hdr.request, flags: hdr.flags, size: hdr.size, body: body.bytes(), payload: payload@, fds: opt_rawfds(fds) })) && final(self).io_failed@ == old(self).io_failed@,
             r is Err ==> final(self).log@ == old(self).log@ && final(self).io_failed@ { unimplemented!() }
+    // proved-by: c08_recv_body_classification (kani) + unit chunk (recv_into_iovec_all) + assumed: A-OS
     #[verifier::external_body]
     pub fn recv_body<T: ByteValued>(&mut self) -> (r: core::result::Result<(VhostUserGpuMsgHeader, T, Option<Vec<File>>), Error>)
         ensures r is Err ==> final(self).log@ == old(self).log@ && final(self).io_failed@,
@@ -68,6 +74,7 @@ impl Endpoint {
                 && r->Ok_0.0 == rx_hdr(final(self).log@.last()->Rx_0) && r->Ok_0.1 == T::decode(final(self).log@.last()->Rx_0.body)
                 && (r->Ok_0.2 is Some) == (final(self).log@.last()->Rx_0.fds.len() > 0) { unimplemented!() }
 }
+// R5 target (sizes proved-by: c01_gpu_layout_table)
 #[verifier::external_body]
 pub fn size_of_<T: ByteValued>() -> (r: usize) ensures r as nat == T::spec_size(), r <= 4096 { unimplemented!() }
 // R6 targets: io_err_convert_fn(..) closures (error text only)
@@ -82,6 +89,7 @@ pub struct BackendInternal { pub sock: Endpoint, pub error: Option<i32> }
 pub struct GpuBackend { pub inner: BackendInternal, pub acq: Ghost<nat> }
 impl GpuBackend {
     // R8 (assumed: A-LOCK)
+    // assumed: A-LOCK
     #[verifier::external_body]
     pub fn node(&mut self) -> (g: &mut BackendInternal)
         ensures *g == old(self).inner, final(self).inner == *final(g), final(self).acq@ == old(self).acq@ + 1 { unimplemented!() }
